@@ -180,11 +180,11 @@ func c11Build(t *testing.T) *c11State {
 	})
 
 	flt, err := filtering.New(&filtering.Config{
-		DataDir:         dir,
-		BlockingMode:    filtering.BlockingModeDefault,
-		HTTPRegister:    shim,
-		ConfigModified:  func() {},
-		BlockedServices: &filtering.BlockedServices{},
+		DataDir:              dir,
+		BlockingMode:         filtering.BlockingModeDefault,
+		HTTPRegister:         shim,
+		ConfigModified:       func() {},
+		BlockedServices:      &filtering.BlockedServices{},
 		ApplyClientFiltering: func(_ string, _ netip.Addr, _ *filtering.Settings) {},
 	}, nil)
 	if err != nil {
